@@ -5,6 +5,7 @@ from the working tree (/venv has an editable install of /repo).
 """
 import json
 import os
+import signal
 import sqlite3
 import sys
 import warnings
@@ -22,6 +23,62 @@ from placement.db.sqlalchemy import migration
 from placement.objects import trait, resource_class
 
 ADMIN = 'admin'
+
+
+REQUEST_TIMEOUT_S = float(os.environ.get('VERIF_REQUEST_TIMEOUT', '6'))
+HANGS = [0]      # requests abandoned in this process; checks stop generating new cases once a few were seen
+
+
+class RequestHang(BaseException):
+    """raised by the alarm; a BaseException so that no `except Exception` of the service swallows it"""
+
+
+_ACTIVE = [0]       # requests in flight in this process (several under the greenlet scheduler)
+_OWNERS = []        # the greenlets (or None without greenlets) executing them
+
+try:
+    import greenlet as _greenlet
+except ImportError:      # pragma: no cover
+    _greenlet = None
+
+
+def _current():
+    return _greenlet.getcurrent() if _greenlet is not None else None
+
+
+def _on_alarm(signum, frame):
+    # raise only inside code that executes a request (the greenlet that is running and does not terminate), never
+    # in the scheduler while all requests are suspended at a transaction boundary
+    if _ACTIVE[0] > 0 and _current() in _OWNERS:
+        raise RequestHang()
+
+
+def _arm(seconds):
+    """start the deadline of one request.  The timer repeats: should the exception be swallowed by some
+    `except BaseException` / `__del__` on its way out (it is raised at an arbitrary point), the next tick raises it
+    again.  Under the transaction scheduler several requests are in flight in one process: the timer is shared and
+    restarted whenever a request starts or ends, and is stopped only when none is left."""
+    try:
+        signal.signal(signal.SIGALRM, _on_alarm)
+    except ValueError:          # not in the main thread: no deadline
+        return
+    _ACTIVE[0] += 1
+    _OWNERS.append(_current())
+    signal.setitimer(signal.ITIMER_REAL, seconds, 0.5)
+
+
+def _disarm():
+    _ACTIVE[0] = max(0, _ACTIVE[0] - 1)
+    cur = _current()
+    if cur in _OWNERS:
+        _OWNERS.remove(cur)
+    try:
+        if _ACTIVE[0] == 0:
+            signal.setitimer(signal.ITIMER_REAL, 0)
+        else:
+            signal.setitimer(signal.ITIMER_REAL, REQUEST_TIMEOUT_S, 0.5)
+    except ValueError:
+        pass
 
 
 class App(object):
@@ -124,7 +181,18 @@ class App(object):
                 req.content_type = content_type
         for k, v in (headers or {}).items():
             req.headers[k] = v
-        resp = req.get_response(self.app)
+        # a request of a (possibly modified) service that does not terminate must not hang the check: after
+        # REQUEST_TIMEOUT_S seconds it is abandoned and answered with the synthetic status 599, which every check reports
+        _arm(REQUEST_TIMEOUT_S)
+        try:
+            try:
+                resp = req.get_response(self.app)
+            finally:
+                _disarm()
+        except RequestHang:
+            HANGS[0] += 1
+            return Resp(599, {'errors': [{'status': 599, 'title': 'request did not terminate',
+                                          'detail': 'abandoned by the harness after %s s' % REQUEST_TIMEOUT_S}]}, {})
         try:
             j = json.loads(resp.body) if resp.body else None
         except Exception:
